@@ -155,8 +155,20 @@ LaxRules == { "rfc6840-type-at-delegation",   \* RFC 6840 4.1 at the owner name 
                                               \* follow from the NSEC that spans the name, not be assumed
               "last-nsec-spans-other-zones",  \* the last NSEC spans only names inside its own zone
               "cname-bit-ignored",            \* RFC 6840 4.3 / RFC 4035 5.4: CNAME bit must be clear
-              "next-is-soa-taken-as-last" }   \* only next <= owner marks the last NSEC; a record of another
+              "next-is-soa-taken-as-last",    \* only next <= owner marks the last NSEC; a record of another
                                               \* zone whose next name is the SOA owner is not one
+              "wildcard-expanded-nsec-used" } \* an NSEC whose owner has more labels than its RRSIG's Labels
+                                              \* field was itself expanded from a wildcard: no denial
+
+(* RFC 4035 5.4 (with 5.3.2 / RFC 4034 3.1.3): an NSEC RR whose owner name has *)
+(* more labels than the Labels field of its RRSIG is not the record the zone  *)
+(* signed but that of a wildcard owner shown under an expanded name (its      *)
+(* signature still verifies through the wildcard reconstruction).  Its owner  *)
+(* name is not a name of the chain, so it spans nothing and describes no      *)
+(* name: it must not be used in a denial.  Records carry the optional field   *)
+(* exp (TRUE iff expanded); records of a zone's own chain do not have it.     *)
+Expanded(r) == "exp" \in DOMAIN r /\ r.exp
+Usable(r, L) == "wildcard-expanded-nsec-used" \in L \/ ~Expanded(r)
 
 \* RFC 4035 5.4, 2nd bullet: no RRset is owned by n
 \* (soa, the owner of the SOA in the response, is used by one relaxation only)
@@ -165,6 +177,7 @@ SpansX(r, n, L, soa) ==
     ELSE /\ CanonLess(r.owner, n)
          /\ CanonLess(n, r.next) \/ ("next-is-soa-taken-as-last" \in L /\ r.next = soa)
 ProvesNoRRsets(r, n, L, soa) ==
+    /\ Usable(r, L)
     /\ SpansX(r, n, L, soa)
     /\ "rfc6840-below-delegation" \in L \/ ~(SaysNothingBelow(r) /\ ProperSubdomain(n, r.owner))
 
@@ -181,6 +194,7 @@ ProvesEmptyNonTerminal(r, n, L, soa) == ProvesNoRRsets(r, n, L, soa) /\ ProperSu
 (* child-side apex NSEC (SOA bit set) is accepted here; neither RFC forbids   *)
 (* it and RFC 4035 B.8 shows exactly that response.                           *)
 ProvesNoType(r, n, t, L) ==
+    /\ Usable(r, L)
     /\ NameEq(r.owner, n)
     /\ t \notin r.types
     /\ "cname-bit-ignored" \in L \/ "CNAME" \notin r.types
